@@ -28,9 +28,21 @@ CLASH = {l: dict(letter=l, name=UNI[l]["name"] + "2", items=[f"{l}x", f"{l}y", f
 EXTRA = mk_universe((2, 2), "ef")
 ALLD = dict(UNI)
 ALLD.update(EXTRA)
+# two more kinds of "other" dimension (only in histories whose keys are all letters, since they make a NAME occur twice in a set, and
+# what a key by name then means is outside the property):
+#   twin     : the name of a / b under a fresh letter (g / h): lookups by letter must not be led astray by the shared name
+#   namesake : the name of a / b under the letter of the other one: replacing a by its namesake clashes with b's letter
+TWIN = {"a": dict(letter="g", name=UNI["a"]["name"], items=["g0", "g1", "g2"]), "b": dict(letter="h", name=UNI["b"]["name"], items=["h0"])}
+NAMESAKE = {"a": dict(letter="b", name=UNI["a"]["name"], items=["n0", "n1"]), "b": dict(letter="a", name=UNI["b"]["name"], items=["m0", "m1", "m2"])}
+ALLD["g"], ALLD["h"] = TWIN["a"], TWIN["b"]
+LETTERS = "abcdefgh"
 
 
 def D(l, clash=False):
+    if clash == "tw":
+        return TWIN[l]
+    if clash == "ns":
+        return NAMESAKE[l]
     return CLASH[l] if clash else ALLD[l]
 
 
@@ -51,22 +63,35 @@ def generate(tier, rng):
             ops += [dict(op="expand", i=0, ds=[[l, True] for l in y if l in "ab"], inplace=ip) for ip in (False, True)]
             ops += [dict(op="expand", i=0, ds=[["e", False]] + [[l, True] for l in y if l in "ab"][:1], inplace=True)]
             cases.append(dict(stream="clash", ops=ops))
+    # a dimension replaced by one that carries ITS name but the letter of a dimension that stays (and twins: a shared name, own letter)
+    for x in (["a", "b", "c"], ["b", "a"], ["c", "a", "d", "b"]):
+        for l in "ab":
+            for ip in (True, False):
+                for st in "LN":
+                    ops = [dict(op="new", dims=[[m, False] for m in x]), dict(op="replace", i=0, key=[st, l], d=[l, "ns"], inplace=ip)]
+                    cases.append(dict(stream="clash", ops=ops, twins=True))
+                ops = [dict(op="new", dims=[[m, False] for m in x]), dict(op="append", i=0, d=[l, "tw"], inplace=ip),
+                       dict(op="insert", i=0 if ip else 1, pos=1, d=["e", False], inplace=True), dict(op="replace", i=0 if ip else 1, key=["L", "gh"["ab".index(l)]], d=["f", False], inplace=ip)]
+                cases.append(dict(stream="clash", ops=ops, twins=True))
     n, maxlen = (400, 8) if tier == "quick" else (4000, 12)
     letters = list("abcdef")
     for h in range(n):
         ops = [dict(op="new", dims=[[l, False] for l in rng.sample(list("abcd"), rng.randint(0, 3))])]
+        tw = h % 4 == 3          # a history with twins / namesakes: every key is a letter
         for s in range(1 + rng.randrange(maxlen)):
             r = rng.random()
             i, j = rng.randrange(64), rng.randrange(64)
             l = rng.choice(letters)
             cl = rng.random() < 0.1 and l in "ab"
+            if tw and l in "ab":
+                cl = rng.choice([False, True, "tw", "tw", "ns", "ns"])
             ip = rng.random() < 0.5
             if r < 0.08:
                 ops.append(dict(op="new", dims=[[m, False] for m in rng.sample(letters, rng.randint(0, 4))]))
             elif r < 0.25:
                 ops.append(dict(op=rng.choice(["union", "inter", "diff", "xor", "add"]), i=i, j=j))
             elif r < 0.37:
-                ks = None if rng.random() < 0.4 else [[rng.choice("LN"), m] for m in rng.sample(letters, rng.randint(0, 3))]
+                ks = None if rng.random() < 0.4 else [[rng.choice("L" if tw else "LN"), m] for m in rng.sample(letters, rng.randint(0, 3))]
                 ops.append(dict(op="subset", i=i, keys=ks))
             elif r < 0.42:
                 ops.append(dict(op="copy", i=i))
@@ -79,13 +104,13 @@ def generate(tier, rng):
             elif r < 0.77:
                 ops.append(dict(op="insert", i=i, pos=rng.randint(-6, 6), d=[l, cl], inplace=ip))
             elif r < 0.87:
-                ops.append(dict(op="drop", i=i, key=[rng.choice("LN"), rng.choice(letters)], inplace=ip))
+                ops.append(dict(op="drop", i=i, key=[rng.choice("L" if tw else "LN"), rng.choice(letters + (["g", "h"] if tw else []))], inplace=ip))
             elif r < 0.94:
-                ops.append(dict(op="replace", i=i, key=[rng.choice("LN"), rng.choice(letters)], d=[l, cl], inplace=ip))
+                ops.append(dict(op="replace", i=i, key=[rng.choice("L" if tw else "LN"), (l if tw and cl == "ns" and rng.random() < 0.7 else rng.choice(letters))], d=[l, cl], inplace=ip))
             else:
                 # (a clashing dimension has the letter of one in the set but another name and other items)
                 ops.append(dict(op="expand", i=i, ds=[[m, m in "ab" and rng.random() < 0.25] for m in rng.sample(letters, rng.randint(0, 2))], inplace=ip))
-        cases.append(dict(stream="history", ops=ops))
+        cases.append(dict(stream="history", ops=ops, twins=tw))
     return cases
 
 
@@ -161,7 +186,7 @@ def run_impl(case):
         extra = {}
         if recv is not None and recv < len(pool):
             ds = pool[recv]
-            for l in "abcdef":
+            for l in LETTERS:
                 for st in "LN":
                     kk = _key([st, l])
                     try:
@@ -171,7 +196,7 @@ def run_impl(case):
             try:
                 extra = dict(shape=list(ds.shape), total=ds.total_size, ndim=ds.ndim, len=len(ds), bool=bool(ds),
                              letters=list(ds.letters), names=list(ds.names), string=ds.string,
-                             contains={l: (l in ds) for l in "abcdef"},
+                             contains={l: (l in ds) for l in LETTERS},
                              bypos=[ds[i].letter for i in range(len(ds))],
                              bykey={l: ds[l].letter for l in ds.letters} | {nm: ds[nm].letter for nm in ds.names})
             except Exception as e:  # noqa
@@ -298,10 +323,12 @@ def oracle(case, ob):
             shape = [len(d["items"]) for d in cur]
             if ex["shape"] != shape or ex["total"] != int(np.prod(shape)) or ex["ndim"] != len(cur) or ex["len"] != len(cur) or ex["bool"] != (len(cur) > 0):
                 return f"{tag}: shape/total_size/ndim/len disagree with the dimensions"
-            for l in "abcdef":
+            for l in LETTERS:
                 if ex["contains"][l] != (l in _lets(cur)):
                     return f"{tag}: membership of {l} wrong"
             for (st, l), v in s["lookups"]:
+                if st == "N" and case.get("twins"):
+                    continue          # a name may occur twice in these histories
                 m = [i for i, d in enumerate(cur) if (d["letter"] == l if st == "L" else d["name"] == ALLD[l]["name"])]
                 want = None if not m else [m[0], len(cur[m[0]]["items"])]
                 if v != want:
@@ -323,6 +350,8 @@ for _l in "abcdef":
     DNAME[(_l, False)] = f"d_{_l}"
 for _l in "ab":
     DNAME[(_l, True)] = f"d_{_l}x"
+    DNAME[(_l, "tw")] = f"d_{_l}tw"
+    DNAME[(_l, "ns")] = f"d_{_l}ns"
 COQ_HEADER = "\n".join(f"Definition {nm} := {cq_dim(D(*k))}." for k, nm in DNAME.items()) + (
     "\nDefinition L := KLetter. Definition N := KName. Definition S (a b : nat) := Some (a, b).\nLocal Open Scope nat_scope.")
 cq_nat = str
@@ -371,7 +400,7 @@ def to_coq(case, ob):
     for o, s in zip(ob["steps"], ob["obs"]):
         a = s["after"]
         lk = cq_list([f"({_cq_key(k)}, {'None' if v is None else f'S {v[0]} {v[1]}'})" for k, v in s["lookups"]
-                      if k[0] == "L" or v is not None or k[1] in "ae"])
+                      if (k[0] == "L" or v is not None or k[1] in "ae") and not (k[0] == "N" and case.get("twins"))])
         sh = cq_list([f"({cq_nat(i)}, {cq_nat(j)})" for i, j in a["share"]])
         recv = cq_nat(s["recv"] if s["recv"] is not None else 0)
         out.append(f"({_cq_op(o)}, mk_dobs {cq_bool(s['ok'])} {cq_list([cq_ds(x) for x in a['sets']])} {sh} {recv} {lk})")
@@ -381,7 +410,7 @@ def to_coq(case, ob):
 def nontrivial(case):
     if case["stream"] == "history":
         return len(case["ops"]) >= 3
-    return all(len(o["dims"]) > 0 for o in case["ops"][:2])
+    return all(len(o.get("dims", [1])) > 0 for o in case["ops"][:2])
 
 
 SIGNATURES = {}
